@@ -12,8 +12,8 @@ from ..core.simdisk import SimStream
 from ..core.canon import canon, exc_obs, jsonable
 
 
-def gen_aranges(r):
-    little = r.random() < 0.7
+def gen_aranges(r, little=None):
+    little = (r.random() < 0.7) if little is None else little
     bo = 'little' if little else 'big'
     nsets = r.choice([1, 1, 2, 3, 4])
     # every set states its own address size; the size the file-level structs were made for is a separate, unrelated fact
@@ -43,6 +43,14 @@ def gen_aranges(r):
     sets = [[] for _ in range(nsets)]
     for rg in ranges:
         sets[r.randrange(nsets)].append(rg)
+    if r.random() < 0.25:
+        # a range that ends exactly at the top of its set's address space (begin + length == 2^32 or 2^64): its last byte is
+        # the highest address there is
+        j = r.randrange(nsets)
+        ln = r.choice([1, 2, 16, 0x1000])
+        top = 1 << (8 * set_asz[j])
+        if all(a + l2 <= top - ln or a >= top for a, l2 in ranges):
+            sets[j].insert(r.randrange(len(sets[j]) + 1), (top - ln, ln))
     out = bytearray()
     model = []
     info = 0
@@ -69,8 +77,8 @@ def gen_aranges(r):
     return dict(kind='aranges', little=little, asz=max(set_asz), structs_asz=structs_asz, data=bytes(out).hex(), model=model)
 
 
-def gen_pub(r):
-    little = r.random() < 0.7
+def gen_pub(r, little=None):
+    little = (r.random() < 0.7) if little is None else little
     bo = 'little' if little else 'big'
     nsets = r.choice([1, 2, 3, 4])
     pool = ['main', 'f', 'x' * 70, 'été', '名前', 'a::b<int>', 'operator()', 'dup']
@@ -100,6 +108,10 @@ def gen_pub(r):
 def gen_spec(rs):
     r = substream(rs, 'lutgen')
     t = gen_aranges(r) if r.random() < 0.6 else gen_pub(r)
+    w = substream(rs, 'lutwarm')
+    if w.random() < 0.3:
+        # a long-lived process: a table of the same kind but the other byte order was decoded first
+        t['warm'] = (gen_aranges if t['kind'] == 'aranges' else gen_pub)(w, little=not t['little'])
     q = substream(rs, 'lutq')
     if t['kind'] == 'aranges':
         addrs = [0, 1, (1 << (8 * t['asz'])) - 1]
@@ -122,6 +134,21 @@ def gen_spec(rs):
 def execute(t, viol):
     """-> (log, sim_time)"""
     from elftools.dwarf.structs import DWARFStructs
+    wt = t.get('warm')
+    if wt:
+        try:
+            wd = bytes.fromhex(wt['data'])
+            ws = DWARFStructs(little_endian=wt['little'], dwarf_format=32, address_size=wt.get('structs_asz', wt.get('asz', 8)))
+            if wt['kind'] == 'aranges':
+                from elftools.dwarf.aranges import ARanges
+                list(ARanges(SimStream(wd, 'warm'), len(wd), ws).entries)
+            else:
+                from elftools.dwarf.namelut import NameLUT
+                wl = NameLUT(SimStream(wd, 'warm'), len(wd), ws)
+                list(wl.items())
+                wl.get_cu_headers()
+        except Exception:
+            pass
     data = bytes.fromhex(t['data'])
     stream = SimStream(data, 'table')
     structs = DWARFStructs(little_endian=t['little'], dwarf_format=32, address_size=t.get('structs_asz', t.get('asz', 8)))
